@@ -202,3 +202,71 @@ func (x *Exec) learnSLe(a, b *smt.Term, strict bool) {
 		x.learnLe(a, b, strict)
 	}
 }
+
+// ivDecide tries to decide a condition from interval facts alone (no solver query).
+// Returns 1 (true), 0 (false) or -1 (unknown).
+func (x *Exec) ivDecide(c *smt.Term) int {
+	switch c.Op {
+	case smt.OpConst:
+		return int(c.Val)
+	case smt.OpBNot:
+		r := x.ivDecide(c.Args[0])
+		if r < 0 {
+			return r
+		}
+		return 1 - r
+	case smt.OpBAnd:
+		a, b := x.ivDecide(c.Args[0]), x.ivDecide(c.Args[1])
+		if a == 0 || b == 0 {
+			return 0
+		}
+		if a == 1 && b == 1 {
+			return 1
+		}
+		return -1
+	case smt.OpBOr:
+		a, b := x.ivDecide(c.Args[0]), x.ivDecide(c.Args[1])
+		if a == 1 || b == 1 {
+			return 1
+		}
+		if a == 0 && b == 0 {
+			return 0
+		}
+		return -1
+	case smt.OpUlt, smt.OpUle, smt.OpSlt, smt.OpSle, smt.OpEq:
+		if c.Args[0].W == 0 || c.Args[0].W > 64 {
+			return -1
+		}
+		a, b := x.interval(c.Args[0]), x.interval(c.Args[1])
+		if c.Op == smt.OpSlt || c.Op == smt.OpSle {
+			half := uint64(1) << uint(c.Args[0].W-1)
+			if a.hi >= half || b.hi >= half {
+				return -1
+			}
+		}
+		switch c.Op {
+		case smt.OpUlt, smt.OpSlt:
+			if a.hi < b.lo {
+				return 1
+			}
+			if a.lo >= b.hi {
+				return 0
+			}
+		case smt.OpUle, smt.OpSle:
+			if a.hi <= b.lo {
+				return 1
+			}
+			if a.lo > b.hi {
+				return 0
+			}
+		case smt.OpEq:
+			if a.hi < b.lo || b.hi < a.lo {
+				return 0
+			}
+			if a.lo == a.hi && b.lo == b.hi && a.lo == b.lo {
+				return 1
+			}
+		}
+	}
+	return -1
+}
